@@ -129,3 +129,8 @@ Definition k_mtrace_cs (base ndom : nat) tab doms t reads evs : list Z :=
   with_design base ndom tab doms t (fun D ms =>
     let s0 := minit D ms in
     flat_map (fun s => map (fst s) reads ++ concat (snd s)) (s0 :: mrun D ms evs s0)).
+
+(* domain scoping (case kind d): the visitor's answer for every late-bound use, pre-order; -1 = unresolved *)
+From V.Model Require Export DomScope.
+Definition k_domscope (t : dtree) : list Z :=
+  map (fun o => match o with Some i => Z.of_nat i | None => (-1)%Z end) (prepare_resolve t).
